@@ -4,6 +4,7 @@ stream/metadata validator; then ovniemu -l on the result."""
 
 import json
 import os
+import re
 import shutil
 import struct
 
@@ -242,6 +243,19 @@ def run_case(i):
     if info.get("nostdin"):
         env["RTDRV_CLOSE_STDIN"] = "1"
     try:
+        if i % 9 == 4 and info["mode"] != "huge" and info["threads"] < 40:
+            # a previous job left its trace in the same directory: same loom, pid and thread ids,
+            # longer streams (a restarted job, or thread ids the kernel hands out again)
+            prev = [l if not l.startswith("proc ") else l for l in info["script"].split("\n") if l.startswith("proc ")]
+            for tid in re.findall(r"^init (\d+)$", info["script"], re.M):
+                prev += ["thread", "init " + tid, "cpu 0 0", "ev OHx now %s" % obs.i32(0, int(tid), 0).hex(),
+                         "bulk 3000", "jumbo OB. now 70000 3", "ev OHe now -", "flush", "free", "end"]
+            prev.append("fini")
+            r0 = rt.run_script(drv, "\n".join(prev) + "\n", wd, env=env, timeout=120)
+            if r0.rc != 0 or "RTDRV-DONE" not in r0.out:
+                out["inconclusive"] = "previous-job run failed"; return out
+            shutil.rmtree(os.path.join(wd, "log"), ignore_errors=True)
+            out["mode"] += "+previous-job"
         res = rt.run_script(drv, info["script"], wd, env=env, timeout=120)
         if res.timeout:
             out["inconclusive"] = "driver timeout"; return out
